@@ -708,7 +708,7 @@ func c07TextMutants(r *Rng, b []byte, others [][]byte, budget int) []c07Mutant {
 		}
 	}
 	out := c07Sample(r, len(sys), budget*75/100, func(i int) (c07Mutant, bool) { return sys[i](), true })
-	alphabet := []byte("0123456789abcdefABCDEFxX{}()-.:/, \t=+")
+	alphabet := []byte("0123456789abcdefABCDEFxX{}()-.:/, \t=+%")
 	for len(out) < budget {
 		m := cp()
 		tag := "text.random-edit"
